@@ -100,6 +100,10 @@ pub struct Prop {
     /// A fingerprint mismatch between two executions of the same run is the violation itself
     /// (C20) rather than a harness error.
     pub nondeterminism_is_violation: bool,
+    /// `false` for a property that says nothing about termination (C02: a mutated program may loop
+    /// for ever inside a native, e.g. spreading an iterator that is never done): a run killed by the
+    /// watchdog is then counted (`run_killed_by_watchdog`) but not judged.
+    pub hang_is_violation: bool,
 }
 
 // ---------------------------------------------------------------------------------------------
@@ -306,10 +310,19 @@ fn exec_fresh(prop: &Prop, sc: &Value, scratch: &str) -> RunReport {
     let (tx, rx) = mpsc::channel();
     std::thread::spawn(move || {
         let mut rep = None;
+        let mut oom = false;
         for line in BufReader::new(stdout).lines().map_while(Result::ok) {
             if let Some(j) = line.strip_prefix("R ") {
                 rep = serde_json::from_str::<RunReport>(j).ok();
+            } else if line == "OOM" {
+                oom = true;
             }
+        }
+        if rep.is_none() && oom {
+            // the sandbox's address-space cap, not the engine: nothing to judge
+            let mut r = RunReport::default();
+            r.probe("worker_out_of_memory", 1);
+            rep = Some(r);
         }
         let _ = tx.send(rep);
     });
@@ -330,7 +343,11 @@ fn exec_fresh(prop: &Prop, sc: &Value, scratch: &str) -> RunReport {
             let _ = child.kill();
             let _ = child.wait();
             let mut r = RunReport::default();
-            r.violate("hang", format!("no report within {}s", limit.as_secs()));
+            if prop.hang_is_violation {
+                r.violate("hang", format!("no report within {}s", limit.as_secs()));
+            } else {
+                r.probe("run_killed_by_watchdog", 1);
+            }
             r
         }
     }
@@ -396,9 +413,12 @@ fn run_chunks(prop: &Prop, tier: Tier, seed: u64, lists: Vec<Vec<u64>>, jobs: us
                     let stdout = child.stdout.take().expect("stdout");
                     let mut begun: Option<u64> = None;
                     let mut finished = 0usize;
+                    let mut oom = false;
                     for line in BufReader::new(stdout).lines().map_while(Result::ok) {
                         progress[w].1.store(start.elapsed().as_millis() as u64, Ordering::SeqCst);
-                        if let Some(r) = line.strip_prefix("B ") {
+                        if line == "OOM" {
+                            oom = true;
+                        } else if let Some(r) = line.strip_prefix("B ") {
                             begun = r.trim().parse().ok();
                         } else if let Some(rest) = line.strip_prefix("E ") {
                             let (run, j) = rest.split_once(' ').unwrap_or((rest, "{}"));
@@ -424,6 +444,7 @@ fn run_chunks(prop: &Prop, tier: Tier, seed: u64, lists: Vec<Vec<u64>>, jobs: us
                         use std::os::unix::process::ExitStatusExt;
                         let sig = status.and_then(|s| s.signal());
                         let why = match sig {
+                            _ if oom => "out-of-memory under the worker's address-space cap".to_string(),
                             Some(9) => "signal: 9 (killed by the per-run watchdog, or by the kernel)".to_string(),
                             Some(n) => format!("signal: {n}"),
                             None => format!("{status:?}"),
@@ -513,6 +534,16 @@ fn run_chunks(prop: &Prop, tier: Tier, seed: u64, lists: Vec<Vec<u64>>, jobs: us
                 if unknown_seen >= max_violations {
                     stop.store(true, Ordering::SeqCst);
                 }
+            }
+            Msg::Died(_, why) if why.starts_with("out-of-memory") => {
+                // an allocation failed under the cap this harness puts on its workers: the sandbox ran
+                // out of memory; counted, not judged
+                c.reports += 1;
+                *c.probes.entry("worker_out_of_memory".into()).or_insert(0) += 1;
+            }
+            Msg::Died(_, why) if why.contains("signal: 9") && !prop.hang_is_violation => {
+                c.reports += 1;
+                *c.probes.entry("run_killed_by_watchdog".into()).or_insert(0) += 1;
             }
             Msg::Died(run, why) => {
                 c.reports += 1;
